@@ -765,6 +765,9 @@ type Item struct {
 	Rec   byte                 // record type: RecHS (Build returns a framed message), RecCCS, RecApp, RecAlert
 	Build func(p *Peer) []byte // evaluated when the item is sent, so it sees the transcript so far
 	Raw   bool                 // send Build()'s bytes as a record body without protection and without transcript
+	// Fragment: Build returns handshake BYTES (part of a message) that go out as one handshake record
+	// under the current protection without touching the transcript (the builder accounts for it)
+	Fragment bool
 }
 
 func (p *Peer) rnd(n int) []byte { b := make([]byte, n); io.ReadFull(p.Rand, b); return b }
@@ -896,6 +899,12 @@ func (p *Peer) Send(it Item) error {
 			return nil
 		}
 		return p.SendCCS()
+	case it.Rec == RecHS && it.Fragment:
+		p.Sent = append(p.Sent, it.Name)
+		if b := it.Build(p); len(b) > 0 {
+			return p.WriteRecord(RecHS, b)
+		}
+		return nil // pure bookkeeping: nothing goes on the wire
 	case it.Rec == RecHS:
 		m := it.Build(p)
 		if len(m) > 0 && m[0] == HSFinished {
